@@ -86,6 +86,11 @@ def group_suffix(cont, ctx):
     return ("%s__%s" % (inst_part(cont), ctx_part(ctx))).rstrip("_")
 
 
+def holder(model):
+    """foreign models that are also context-generic carry a user structure holding the first object by value"""
+    return bool(model.get("foreign") and model.get("ctxgeneric") and model["objects"])
+
+
 def pname(i):
     """parameter names as cbindgen copies them from the Rust source: snake_case names (with underscores) and plain ones"""
     return "p_%d_arg" % i if i % 2 == 0 else "a%d" % i
@@ -169,6 +174,9 @@ def render(model):
         ot = obj_type(tr, cont, ctx)
         out.append(OBJ_DOC + "typedef struct %s {\n    const struct %s *vtbl;\n    struct %s container;\n} %s;\n\n" % (ot, vt, cs, ot))
         out.append("/**\n * Base CGlue trait object for trait %s.\n */\ntypedef struct %s %sBase_%s;\n\n" % (tr, ot, tr, group_suffix(cont, ctx)))
+        if holder(model) and o is model["objects"][0]:
+            # a user structure that holds an object by value: cbindgen puts it after the object type
+            out.append("/**\n * A user structure that holds an object by value.\n */\ntypedef struct UserHolder {\n    %sBase_%s held;\n    int32_t n;\n} UserHolder;\n\n" % (tr, group_suffix(cont, ctx)))
     # groups
     for g in model["groups"]:
         allt = sorted(g["mand"]) + sorted(g["opt"])
